@@ -189,6 +189,9 @@ func NumEq(a, b float64) bool {
 	if a == b {
 		return true
 	}
+	if math.IsInf(a, 0) || math.IsInf(b, 0) || math.IsNaN(a) || math.IsNaN(b) {
+		return false // (an infinity is "near" nothing: Inf <= 1e-9*Inf would hold)
+	}
 	d := math.Abs(a - b)
 	m := math.Max(1, math.Max(math.Abs(a), math.Abs(b)))
 	return d <= 1e-9*m
